@@ -140,7 +140,7 @@ def gen(rng, tier, info):
     for k in range(1, 4):
         for seq in itertools.product(MIX, repeat=k):
             if any(o[0] in (2, 5, 6, 7, 8, 9) for o in seq):
-                cases.append({"ops": list(seq), "via": len(cases) % 3, "names": (len(cases) // 3) % len(NAMESETS)})
+                cases.append({"ops": list(seq), "via": len(cases) % 4, "names": (len(cases) // 4) % len(NAMESETS)})
     n_mix = len(cases) - n_base
     for k in range(4, depth + 1):
         for seq in itertools.product(MIX4, repeat=k):
@@ -164,7 +164,7 @@ def gen(rng, tier, info):
         lens[k // 10 * 10] = lens.get(k // 10 * 10, 0) + 1
         nested = i % 5 == 4
         n_rand_nested += nested
-        cases.append({"ops": rand_ops(rng, k, nested), "via": rng.randint(0, 2), "names": rng.randrange(len(NAMESETS))})
+        cases.append({"ops": rand_ops(rng, k, nested), "via": rng.randint(0, 3), "names": rng.randrange(len(NAMESETS))})
     info["distribution"] = {"exhaustive_sequences_base_alphabet": n_base, "exhaustive_max_len": depth,
                             "exhaustive_sequences_mixed_alphabet_len_<=3": n_mix,
                             "exhaustive_sequences_14_op_mixed_alphabet_len_4..%d" % depth: n_mix4,
@@ -196,7 +196,8 @@ def describe(case):
              8: "dispatch-already-stopped-event", 9: "add-listener-that-registers(event, priority, event2, priority2)",
              10: "add-listener-that-dispatches(event, priority, event2, stops)"}
     via = ["EventDispatcher.add_listener", "ApplicationConfig.add_event_listener (dispatcher made on demand)",
-           "ApplicationConfig.add_event_listener (dispatcher set beforehand)"][case.get("via", 0)]
+           "ApplicationConfig.add_event_listener (dispatcher set beforehand)",
+           "ApplicationConfig.add_event_listener, the dispatcher taken from the configuration ONCE, before any registration (as ConsoleApplication does)"][case.get("via", 0)]
     return "registrations through %s; events 0,1,2 are called %r; callable k is a function (k %% 3 = 0), a function with other parameter names (1), a bound method fetched anew for every use (2); ops (then query suffix): " % (via, NAMESETS[case.get("names", 0)]) + \
         "; ".join("%s%s" % (names[o[0]], tuple(o[1:])) for o in case["ops"])
 
@@ -218,8 +219,10 @@ def run_impl(case):
 
     def d():
         # through the configuration the dispatcher exists once something is registered; before that nothing is
-        # registered anywhere, which is what an unused dispatcher answers
-        if disp[0] is None and config is not None:
+        # registered anywhere, which is what an unused dispatcher answers.  via 3: the dispatcher is asked for ONCE, before
+        # anything is registered, and kept - as ConsoleApplication and Command do at construction (fix cc21fd1: a listener
+        # added to the configuration afterwards was never called); no dispatcher = nobody is called
+        if disp[0] is None and config is not None and via != 3:
             disp[0] = config.dispatcher
         return disp[0] if disp[0] is not None else EventDispatcher()
 
